@@ -77,7 +77,9 @@ PROPS = {
           "built twice in two random orders; non-trivial = an Add on a distinct (type, configuration, position, value), a reset twin, a distinct window multiset",
   "level_text": "Proved: C18_minimum (over the reals, any number of positive finite samples), C18_minimum_flag, C18_expavg_warmup, C18_window_summary, C18_window_perm "
                 "(any permutation), C18_reset_fresh_* for the four stateful types (Reset yields literally the constructor's state after any operation sequence). "
-                "Hull of the exponential average and non-negative variance are decided by replay + oracle (float theorems in progress).",
+                "C18_expavg_hull / C18_moving_average_hull: in binary64 the averages stay finite within [0, 2^k] for every sample sequence in [0, 2^k] (no drift: scaling by 2^k is exact, "
+                "the rounded weights exceed 1 by at most 2^-54); C18_variance_nonneg: the moving variance stays finite in [0, 2^2k], never negative. The hull between the exact smallest and largest "
+                "sample is decided by replay + oracle (ulp slack).",
   "level_note": "Trusted as C04; math.Pow(d,2) modelled as d*d (identical unless the square is subnormal; generator keeps |d| >= 2^-500). Known finding F20 (warm-up 0) replayed.",
   "technique": "Coq structural/real-number theorems over the binary64 model + bit-exact differential replay with reset twins",
  },
